@@ -151,6 +151,7 @@ static void run(Tape &t, Ctx &c, bool requireTls)
     std::string history;
     const QString streamId = QStringLiteral("sid-c04-77");
     bool encryptionImpossible = false, reachedAuthCapable = false, tlsStarted = false, proceedSent = false, failedOver = false;
+    int opsSinceFailOver = -1;   // -1: still on the first address
     int steps = 2 + int(t.u(9));
     const char *header10 = "<?xml version='1.0'?><stream:stream xmlns='jabber:client' xmlns:stream='http://etherx.jabber.org/streams' from='example.org' id='%1' version='1.0'>";
     // macro: what an ordinary server does to get a client authenticated over TLS
@@ -189,6 +190,7 @@ static void run(Tape &t, Ctx &c, bool requireTls)
     auto cutAndFailOver = [&] {
         history += " CUT->next-address";
         failedOver = true;
+        opsSinceFailOver = 0;
         srv.cut(conn);
         if (!lb::settleUntil([&] { return srv2.last() != nullptr; }, 3000)) {
             history += "(client gave up)";
@@ -225,8 +227,16 @@ static void run(Tape &t, Ctx &c, bool requireTls)
             continue;
         }
         // a connection starts with the server's stream header (also the one the client fell over to)
-        const bool freshConnection = step == 0 || (failedOver && history.size() >= 17 && history.compare(history.size() - 17, 17, "CUT->next-address") == 0);
+        const bool freshConnection = step == 0 || opsSinceFailOver == 0;
         uint32_t op = freshConnection ? t.weighted({ 8, 2, 1 }) : 3 + t.weighted({ 6, 3, 1, 2, 2, 2, 3, 1, 1, 1, 1, 2, 2, 2 });
+        // the peer behind the second address may go on as if the authentication begun on the first one had carried over
+        // (half of the times, right after its stream header)
+        if (opsSinceFailOver == 1 && t.b()) {
+            static const uint32_t continuations[] = { 6, 6, 7, 15, 15 };
+            op = continuations[t.u(5)];
+        }
+        if (opsSinceFailOver >= 0)
+            opsSinceFailOver++;
         switch (op) {
         case 0: history += " header(1.0)"; srv.send(conn, QStringLiteral("<?xml version='1.0'?><stream:stream xmlns='jabber:client' xmlns:stream='http://etherx.jabber.org/streams' from='example.org' id='%1' version='1.0'>").arg(streamId)); break;
         case 1: history += " header(no-version)"; reachedAuthCapable = true; srv.send(conn, QStringLiteral("<?xml version='1.0'?><stream:stream xmlns='jabber:client' xmlns:stream='http://etherx.jabber.org/streams' from='example.org' id='%1'>").arg(streamId)); break;
